@@ -461,6 +461,84 @@ func RunRapid(c *core.Ctx) {
 			"seconds->\"seconds\" (int64), nanos->\"nanos\" (int32)", fmt.Sprintf("field mapping is %v", got), pos(f.Pos()), src)
 	}
 
+	// ------------------------------------------------------------------ RAPID.fresh
+	// every draw fills a message created inside the generator function handed to rapid.Custom (a message created
+	// outside it would be shared by all draws: lists, maps and FieldMask paths accumulate, every draw returns the same pointer)
+	{
+		var fd *ast.FuncDecl
+		for _, file := range pkg.Syntax {
+			for _, d := range file.Decls {
+				if f, ok := d.(*ast.FuncDecl); ok && f.Name.Name == "MessageGenerator" && f.Body != nil {
+					fd = f
+				}
+			}
+		}
+		if fd == nil {
+			c.Undec("RAPID.fresh", "rapidproto.MessageGenerator", "declaration not found", "", src)
+		} else {
+			n := 0
+			ast.Inspect(fd.Body, func(x ast.Node) bool {
+				ce, ok := x.(*ast.CallExpr)
+				if !ok {
+					return true
+				}
+				if core.QualName(core.CalleeObj(pkg.TypesInfo, ce)) != "pgregory.net/rapid.Custom" || len(ce.Args) != 1 {
+					return true
+				}
+				fl, ok := ast.Unparen(ce.Args[0]).(*ast.FuncLit)
+				if !ok {
+					c.Undec("RAPID.fresh", "rapidproto.MessageGenerator rapid.Custom argument", "the generator function is not a function literal", pos(ce.Pos()), src)
+					return true
+				}
+				ast.Inspect(fl.Body, func(y ast.Node) bool {
+					call, ok := y.(*ast.CallExpr)
+					if !ok {
+						return true
+					}
+					f, ok := core.CalleeObj(pkg.TypesInfo, call).(*types.Func)
+					if !ok || f.Pkg() != pkg.Types || f.Name() != "setFields" || len(call.Args) < 3 {
+						return true
+					}
+					n++
+					con := fmt.Sprintf("rapidproto.MessageGenerator setFields#%d message", n)
+					id, ok := ast.Unparen(call.Args[2]).(*ast.Ident)
+					if !ok {
+						c.Undec("RAPID.fresh", con, "message argument is not a local variable", pos(call.Pos()), src)
+						return true
+					}
+					obj := pkg.TypesInfo.ObjectOf(id)
+					inside := obj != nil && obj.Pos() >= fl.Body.Pos() && obj.Pos() < fl.Body.End()
+					fromNew := false
+					writes := 0
+					ast.Inspect(fd.Body, func(z ast.Node) bool {
+						if as, ok := z.(*ast.AssignStmt); ok {
+							for i, l := range as.Lhs {
+								if li, ok := l.(*ast.Ident); ok && pkg.TypesInfo.ObjectOf(li) == obj {
+									writes++
+									if len(as.Rhs) == len(as.Lhs) {
+										if rc, ok := ast.Unparen(as.Rhs[i]).(*ast.CallExpr); ok {
+											if sel, ok := rc.Fun.(*ast.SelectorExpr); ok && sel.Sel.Name == "New" && len(rc.Args) == 0 {
+												fromNew = as.Pos() >= fl.Body.Pos() && as.Pos() < fl.Body.End()
+											}
+										}
+									}
+								}
+							}
+						}
+						return true
+					})
+					c.Check(inside && fromNew && writes == 1, "RAPID.fresh", con, "the message is created by New() inside the function run for each draw",
+						"the message that setFields fills is not created by a New() call inside the function rapid runs for each draw: all draws share (and keep appending to) one message", pos(call.Pos()), src)
+					return true
+				})
+				return true
+			})
+			if n == 0 {
+				c.Undec("RAPID.fresh", "rapidproto.MessageGenerator", "no setFields call inside a rapid.Custom generator function found", pos(fd.Pos()), src)
+			}
+		}
+	}
+
 	// ------------------------------------------------------------------ RAPID.dispatch
 	// the well-known types are recognised by their real full names and each is handed to its own generator
 	{
